@@ -1,18 +1,36 @@
 """C05 — the computed difference is exactly what a replica lacks; one exchange repairs."""
 import vlib
-from checks import orswot_merge
+from checks import cluster_model, orswot_merge
 
 ASSUMPTIONS = [
     "same replica universes as C03 (gap-free prefixes, or all stamps within one forgiveness period)",
     "the difference is applied the way the keyspace actor applies it: will_apply filter on the pre-batch state, stamps ascending, "
     "through the read-repair source, removals first and modifications first",
     "clause (i) compares the real diff() with DiffSpec written from the statement; (ii)/(iii) are evaluated on the real sets",
+    "the poller's side of the exchange (get_keyspace_diff, handle_removals, handle_modified, begin_keyspace_sync): Cluster.tla with direct "
+    "replication switched off (NoDirect), so that every difference between nodes is repaired by exchanges only; exhaustive small config, "
+    "simulated behaviours replayed on real nodes step by step and with whole exchanges run by the real poller code; after every pair has "
+    "exchanged no node computes a difference against any other and all reads are identical (C05_NothingLeft, C01_Converges); every diff the real "
+    "keyspace actors answered is validated against DiffSpec by Trace_KeyspaceActor.tla",
 ]
 
 
 def run(ctx):
-    results = orswot_merge.run_all(ctx)
+    import concurrent.futures
+    with concurrent.futures.ThreadPoolExecutor(max_workers=2) as pool:
+        fut = pool.submit(cluster_model.run_all, ctx, "C05")
+        results = orswot_merge.run_all(ctx)
+        glob = fut.result()
     cov = orswot_merge.judge(ctx, results, "C05")
+    gcov = cluster_model.judge(ctx, glob, {"C01", "C05", "C19"})
+    exch = sum(r["rep"]["step_kinds"].get("getstate", 0) for r in glob if r["kind"] == "simulated")
+    if exch == 0:
+        raise vlib.ToolError("vacuous: no exchange in the replayed behaviours")
+    cov["states"] += gcov["states"]
+    cov["transitions"] += gcov["transitions"]
+    cov["traces_validated_against_impl"] += gcov["traces_validated_against_impl"]
+    cov["exchanges"] = {k: gcov[k] for k in ("exhaustive_configs", "simulated_configs", "drift_behaviours")}
+    cov["exchanges"]["exchanges_replayed"] = exch
     return vlib.finish(ctx, "model_checking", cov, ASSUMPTIONS)
 
 
